@@ -14,8 +14,8 @@
                                                device flush [ddur], root nodes only (no well-formedness pass)
         -> "<nodes> <root issues> : <lfn u16 hex|->,<size>,<cluster>,<chain len|x>,<content hex|->;..."
    The event tokens after "|" are the library's device events of the call IN ORDER: "<off>:<hex>" a write, "F" a device flush.
-   Two more images are kept: [dur] = Model/VolSession2.s2_durable of the steps so far (the model image right after its last
-   flush / drop step), [ddur] = the device image as of the last device flush the library issued.  Every create / step / flush /
+   Two more images are kept: [dur] = the extracted VolSession2.s2_durable, applied step by step (the model image right after
+   its last flush / drop step), [ddur] = the device image as of the last device flush the library issued.  Every create / step / flush /
    sync answer ends with " | <durable cmp>": the whole-image comparison of the two (status byte masked like <cmp>).
    states = "<offset> <size|-> <first|-> <dirty 0|1>" per handle, joined by ";" *)
 open Conv
@@ -31,40 +31,7 @@ let ddur : Image.image ref = ref (Image.img_empty BinNums.N0)
 let apply_events (wr : string list) : unit =
   Stdlib.List.iter (fun tok -> if tok = "F" then ddur := !M_csess.dim else M_csess.apply_writes [tok]) wr
 
-(* whole-image comparison by a simultaneous walk of the two tries (the same verdict and count as M_csess.compare_images:
-   every offset either map holds, a missing binding reads as the fill byte; [mask] = offset whose bit 0 is ignored).  The key
-   of a node reached by [depth] branchings with branch bits [path] (least significant first) is path + 2^depth; offset = key - 1 *)
-let compare_two (a : Image.image) (b : Image.image) (mask : int) : string =
-  let afill = int_of_n a.Image.img_fill and bfill = int_of_n b.Image.img_fill in
-  let bad = ref None and n = ref 0 in
-  let note off x y =
-    incr n;
-    let x, y = if off = mask then (x lor 1, y lor 1) else (x, y) in
-    if x <> y then (match !bad with Some (o, _, _) when o <= off -> () | _ -> bad := Some (off, x, y)) in
-  let rec go ta tb path depth =
-    match ta, tb with
-    | FMapPositive.PositiveMap.Leaf, FMapPositive.PositiveMap.Leaf -> ()
-    | _ ->
-      let (la, va, ra) = match ta with
-        | FMapPositive.PositiveMap.Leaf -> (FMapPositive.PositiveMap.Leaf, None, FMapPositive.PositiveMap.Leaf)
-        | FMapPositive.PositiveMap.Node (l, v, r) -> (l, v, r) in
-      let (lb, vb, rb) = match tb with
-        | FMapPositive.PositiveMap.Leaf -> (FMapPositive.PositiveMap.Leaf, None, FMapPositive.PositiveMap.Leaf)
-        | FMapPositive.PositiveMap.Node (l, v, r) -> (l, v, r) in
-      (match va, vb with
-       | None, None -> ()
-       | _ ->
-         let off = path + (1 lsl depth) - 1 in
-         note off (match va with Some x -> int_of_n x | None -> afill) (match vb with Some y -> int_of_n y | None -> bfill));
-      go la lb path (depth + 1);
-      go ra rb (path + (1 lsl depth)) (depth + 1) in
-  go a.Image.img_map b.Image.img_map 0 0;
-  if afill <> bfill then "DIFF fill byte"
-  else match !bad with
-    | Some (o, x, y) -> Printf.sprintf "DIFF at %d: model %d device %d" o x y
-    | None -> Printf.sprintf "same %d" !n
-
-let cmp_durable (mask : int) : string = compare_two !dur !ddur mask
+let cmp_durable (mask : int) : string = M_csess.compare_two !dur !ddur mask
 
 let decode_light (im : Image.image) : string =
   let v = Abs.abs im in
@@ -89,7 +56,7 @@ let states_s () : string =
 
 let cmp (mask : int) : string =
   M_csess.mim := (!st).VolSession2.s2_im;
-  compare_two !M_csess.mim !M_csess.dim mask
+  M_csess.compare_two !M_csess.mim !M_csess.dim mask
 
 let line (t : string list) : string =
   match t with
@@ -122,8 +89,9 @@ let line (t : string list) : string =
     (match op with
      | Some op ->
        apply_events wr;
-       let (s1, r) = VolSession2.s2_step !M_csess.g !M_csess.acc !st
-           (VolSession2.SOp (nat_of_int (int_of_string i), op, M_c18.mkdt y m d h mi s ms)) in
+       let sop = VolSession2.SOp (nat_of_int (int_of_string i), op, M_c18.mkdt y m d h mi s ms) in
+       let (s1, r) = VolSession2.s2_step !M_csess.g !M_csess.acc !st sop in
+       dur := VolSession2.s2_durable !M_csess.g !M_csess.acc !st !dur [sop];
        st := s1;
        Printf.sprintf "%s | %s | %s | %s" (match r with Some r -> M_csess.res_s r | None -> "skip") (states_s ())
          (cmp (M_csess.status_off ())) (cmp_durable (M_csess.status_off ()))
@@ -136,8 +104,8 @@ let line (t : string list) : string =
       | Some x -> if VolSession2.s2_dirty x then 1 else 0
       | None -> -1 in
     let (s1, _) = VolSession2.s2_step !M_csess.g !M_csess.acc !st (VolSession2.SFlush (nat_of_int k)) in
+    dur := VolSession2.s2_durable !M_csess.g !M_csess.acc !st !dur [VolSession2.SFlush (nat_of_int k)];
     st := s1;
-    if dirty >= 0 then dur := s1.VolSession2.s2_im;
     Printf.sprintf "ok %d | %s | %s | %s" dirty (states_s ()) (cmp (M_csess.status_off ())) (cmp_durable (M_csess.status_off ()))
   | "sync" :: how :: rest ->
     let (_, wr) = M_csess.split_bar [] rest in
